@@ -2,6 +2,7 @@
 //! usage: gxv <ID> --tier quick|thorough --seed N --out result.json [--replay witness.json]
 //!        gxv --child <ID> <mode>      (internal: isolated worker)
 mod fw;
+mod c51_core;
 use fw::{Ctx, Tier};
 
 macro_rules! registry {
